@@ -276,6 +276,12 @@ def group_configs(group, shape, level='small', partner=False):
                     for k, t in enumerate(ts):
                         f.setdefault((vi, k % n), []).append('Into(%s)' % t if k % 2 == 0 else 'Into(%s, method(conv_m))' % t)
             mk(','.join(ts), ['Into(%s)' % t for t in ts], f)
+        # no marker at all: the source field is found by its type, which has to be the type of exactly one field (structs with pairwise distinct field types)
+        if shape.kind == 'struct' and shape.ftypes and not shape.generics and len(shape.variants) == 1 and shape.variants[0][1] > 1:
+            tys = [shape.ftypes.get((0, k)) for k in range(shape.variants[0][1])]
+            for t in tys:
+                if t and tys.count(t) == 1:
+                    mk('unmarked:' + t, ['Into(%s)' % t], {})
     else:
         raise ValueError(group)
     return out
